@@ -13,7 +13,7 @@ Definition slice (off len : nat) (m : list N) : list N := firstn len (skipn off 
 (* unpack_parameter(data, offset, size) *)
 Definition unpack_parameter (m : list N) (off size : nat) : option pvals :=
   if existsb (fun x => negb (x =? byte_undefined)) (slice off (3 * size) m) then
-    Some (le_decode (slice off size m), le_decode (slice (off + size) size m), le_decode (slice (off + 2 * size) size m))
+    Some (le_decode (slice off size m), le_decode (slice (size + off) size m), le_decode (slice (2 * size + off) size m))
   else None.
 
 (* for index in range(start, start + count): one 3-byte slot each *)
@@ -21,7 +21,7 @@ Fixpoint unpack_slots (m : list N) (off : nat) (index : N) (count : nat) : list 
   match count with
   | O => ([], off)
   | S k =>
-    let '(rest, off') := unpack_slots m (off + 3) (index + 1) k in
+    let '(rest, off') := unpack_slots m (3 + off) (index + 1) k in
     match unpack_parameter m off 1 with
     | Some p => ((index, p) :: rest, off')
     | None => (rest, off')
